@@ -76,6 +76,66 @@ def variants(a):
     return out
 
 
+MAX_FORMAT = 400
+
+
+def format_candidates():
+    """std.format / the % operator: every conversion x width form x precision form with an array argument
+    (a `*` consumes an element), mappings with an object argument, and two-conversion strings; every
+    argument position is probed with error "never" under the observers result / std.length(result)."""
+    out = []
+    val = {'d': '42', 'i': '42', 'u': '42', 'o': '8', 'x': '255', 'X': '255', 'e': '1.5', 'E': '1.5', 'f': '1.5', 'F': '1.5',
+           'g': '1.5', 'G': '1.5', 'c': '"x"', 's': '"x"'}
+    specs = []
+    for conv in 'diuoxXeEfFgGcs%':
+        for w in ('', '5', '*'):
+            for pr in ('', '.2', '.*'):
+                for fl in ('', '-', '0'):
+                    if fl and (w == '' or conv == '%'):
+                        continue
+                    args = []
+                    if w == '*':
+                        args.append('6')
+                    if pr == '.*':
+                        args.append('3')
+                    if conv != '%':
+                        args.append(val[conv])
+                    specs.append(('%' + fl + w + pr + conv, args))
+    strings = [(f, a) for f, a in specs]
+    # two conversions: the second one is %s / %d behind a first of every kind (positions shift with `*`)
+    for f, a in specs[::7]:
+        strings.append((f + '|%s', a + ['"t"']))
+        strings.append(('%s|' + f, ['"t"'] + a))
+    for f, a in strings:
+        fmt = json.dumps(f)
+        for i in range(len(a)):
+            arr = '[' + ', '.join(NEVER if j == i else x for j, x in enumerate(a)) + ']'
+            part = 'arg%d:fmt=%s' % (i, f)
+            out.append(('mod', part, 'bare', '%s %% %s' % (fmt, arr)))
+            out.append(('mod', part, 'length', 'std.length(%s %% %s)' % (fmt, arr)))
+            out.append(('format', part, 'bare', 'std.format(%s, %s)' % (fmt, arr)))
+            out.append(('format', part, 'length', 'std.length(std.format(%s, %s))' % (fmt, arr)))
+        # one extra, unused trailing element (too many values is an error: recorded only if the tree accepts it)
+        if len(a) == 1:
+            out.append(('mod', 'single:fmt=' + f, 'bare', '%s %% %s' % (fmt, a[0])))
+    # mappings with an object argument: unused keys, and each used key
+    for conv in 'diuoxXeEfFgGcs':
+        for w, pr in (('', ''), ('5', ''), ('', '.2'), ('7', '.1')):
+            f = '%(a)' + w + pr + conv + '/%(b)s'
+            fmt = json.dumps(f)
+            fields = [('a', val[conv]), ('b', '"t"'), ('unused', '1'), ('zz', '[1]')]
+            for i in range(len(fields)):
+                obj = '{' + ', '.join('%s: %s' % (k, NEVER if j == i else v) for j, (k, v) in enumerate(fields)) + '}'
+                part = 'field-%s:fmt=%s' % (fields[i][0], f)
+                out.append(('mod', part, 'bare', '%s %% %s' % (fmt, obj)))
+                out.append(('format', part, 'length', 'std.length(std.format(%s, %s))' % (fmt, obj)))
+    # %s of composite values: is an element of a formatted array / object demanded?
+    for inner in ('[1, %s]' % NEVER, '{a: 1, b: %s}' % NEVER, '[[%s]]' % NEVER):
+        out.append(('mod', 'nested:%s', 'length', 'std.length("%%s" %% [%s])' % inner))
+        out.append(('mod', 'nested:%5s', 'bare', '"%%5s" %% [%s]' % inner))
+    return out
+
+
 def run(exe, progs):
     cases = [('q%d' % i, 'eval', ['stack=400', hxl(list(p.encode('utf-8')))]) for i, p in enumerate(progs)]
     res = vlib.run_sharded(exe, [vlib.impl_line(c) for c in cases], timeout=300)
@@ -149,6 +209,7 @@ def main():
                             cand.append((n, 'arg%d:%s' % (ai, d), o[0], o[1]))
             if kept >= 10:
                 break
+    cand += format_candidates()
     vlib.log('%d candidate (call, part, observer) triples' % len(cand))
     vals = run(exe, [c[3] for c in cand])
     facts = {}
@@ -164,9 +225,10 @@ def main():
             groups.setdefault((f[0].split(':')[1].split('.')[0].rstrip('0123456789'), f[1].rstrip('0123456789')), []).append(f)
         order = []
         keys = sorted(groups)
-        while len(order) < MAX_PER_FUNCTION and any(groups[k] for k in keys):
+        cap = MAX_FORMAT if n in ('format', 'mod') else MAX_PER_FUNCTION
+        while len(order) < cap and any(groups[k] for k in keys):
             for k in keys:
-                if groups[k] and len(order) < MAX_PER_FUNCTION:
+                if groups[k] and len(order) < cap:
                     order.append(groups[k].pop(0))
         for part, ob, prog, v in order:
             lines.append('%s\t%s\t%s' % (n, prog, v))
